@@ -68,6 +68,36 @@ class E:
             for c in x.children():
                 stack.append(c)
 
+    def rebuild(self, fn):
+        """Bottom-up rewrite: fn(E) -> E|None applied to every node after its children were rebuilt."""
+        k, a = self.k, self.a
+        if k in ("field", "downcast"):
+            n = E(k, a[0].rebuild(fn), a[1], t=self.t)
+        elif k in ("deref", "discr"):
+            n = E(k, a[0].rebuild(fn), t=self.t)
+        elif k == "ref":
+            n = E(k, a[0].rebuild(fn), a[1], t=self.t)
+        elif k == "index":
+            n = E(k, a[0].rebuild(fn), a[1].rebuild(fn), t=self.t)
+        elif k == "call":
+            n = E(k, a[0], tuple(x.rebuild(fn) for x in a[1]), a[2], t=self.t)
+        elif k == "bin":
+            n = E(k, a[0], a[1].rebuild(fn), a[2].rebuild(fn), t=self.t)
+        elif k == "un":
+            n = E(k, a[0], a[1].rebuild(fn), t=self.t)
+        elif k == "cast":
+            n = E(k, a[0], a[1].rebuild(fn), a[2], t=self.t)
+        elif k == "agg":
+            n = E(k, a[0], tuple(x.rebuild(fn) for x in a[1]), t=self.t)
+        elif k == "phi":
+            n = E(k, tuple(x.rebuild(fn) for x in a[0]), t=self.t)
+        else:
+            n = self
+        if n.k == "deref" and n.a[0].k == "ref":
+            n = n.a[0].a[0]
+        r = fn(n)
+        return n if r is None else r
+
     def children(self):
         k, a = self.k, self.a
         if k in ("field", "deref", "ref", "downcast", "discr"):
